@@ -65,6 +65,9 @@ def judge_iterative(dep, rec, L, prop, probes):
             return v, info
         E = []
     info["E"] = E
+    if A.path == "in_memory" and any(x < 0 for x in E):
+        v.append(Violation(prop, prop + ".evaluated-values", sig + ":likelihood-evaluated-on-values-that-are-not-library-rows", "%d evaluated row(s) match no library row" % sum(1 for x in E if x < 0)))
+        return v, info
     # ---- rows requested beyond the library cannot be evaluated: the read fails
     if any((x < 0 or x >= N) for x in E):
         if rec["raised"] is None:
